@@ -24,6 +24,12 @@ def factory(prop):
     if prop == "C06":
         from engines.deadlines import DeadlineCheck
         return DeadlineCheck()
+    if prop == "C19":
+        from engines.func_iter import IterCheck
+        return IterCheck()
+    if prop == "C20":
+        from engines.func_lru import LruCheck
+        return LruCheck()
     raise SystemExit(f"unknown property {prop}")
 
 
